@@ -9,7 +9,9 @@
     [shape_node] follows [_add_shape] step by step in the order of the helper
     calls as they stand in the source ([shacl_add_shape_steps] of
     Gen/Consts.v): [_generate_shape_uri] (ValueError on a label that is not
-    [%<..>]), [_add_shape_uri] ([rdf:type sh:NodeShape]), [_add_target_class],
+    [%<..>]), [_add_shape_uri] ([rdf:type sh:NodeShape]), [_add_target_class]
+    ([Model.SerialShacl.target_class_obj]: the class key, with one pair of corners
+    removed when the repaired text of the method was read),
     [_add_min_iri] (only under [detect_minimal_iri]; [sh:pattern "^stem"], a
     literal without datatype; KeyError when the examples dictionary has no
     entry for the class), [_add_shape_constraints] (one [sh:property] arc to
@@ -70,7 +72,8 @@ Fixpoint doc_triples (i : nat) (d : list (str * list (str * rnode))) : list rdf_
 Inductive gerr :=
 | GValueError       (* the Python code raises ValueError *)
 | GKeyError         (* [shape_min_iri] subscripts a dictionary without the class *)
-| GUnmodelled.      (* OR statements / a helper this model does not know *)
+| GUnmodelled       (* a helper this model does not know *)
+| GTypeError.       (* [st_type] of a choice statement (disable_or_statements=False) *)
 
 Definition of_vres {A} (v : vres A) : A + gerr :=
   match v with
@@ -78,6 +81,7 @@ Definition of_vres {A} (v : vres A) : A + gerr :=
   | VValueError => inr GValueError
   | VUnreadable => inr GUnmodelled      (* never produced by the SHACL side *)
   | VUnmodelled => inr GUnmodelled
+  | VTypeError => inr GTypeError
   end.
 
 (** [detect_minimal_iri] and what [shape_example_features.shape_min_iri(class)]
@@ -97,7 +101,7 @@ Definition shape_step (z : dcfg) (tau : str) (sh : shape) (step : str) : option 
   else if str_eqb step (Str "_add_shape_uri") then
     Some (inl [(rdflib_RDF_type, RIri c_shacl_R_SHACL_SHAPE_URI)])
   else if str_eqb step (Str "_add_target_class") then
-    Some (inl [(c_shacl_R_SHACL_TARGET_CLASS_PROP, RIri (sh_class sh))])
+    Some (inl [(c_shacl_R_SHACL_TARGET_CLASS_PROP, RIri (target_class_obj (sh_class sh)))])
   else if str_eqb step (Str "_add_min_iri") then
     Some (if d_detect z then
             match d_pat z (sh_class sh) with
@@ -163,3 +167,42 @@ Definition shacl_graph_gen (z : dcfg) (ns : nsdict) (tau : str) (l : list shape)
 (** [detect_minimal_iri] off (the default) *)
 Definition shacl_graph (ns : nsdict) (tau : str) (l : list shape) : list rdf_triple + gerr :=
   shacl_graph_gen no_patterns ns tau l.
+
+(** ** [_produce_output]: [self._g_shapes.serialize(format="turtle")].  rdflib's Turtle writer is
+    trusted to print the triples of the graph (harness/vp/shacldoc.py re-parses the text) with one
+    exception that sheXer can reach: an IRI in subject or object position that it cannot abbreviate
+    goes through [URIRef.n3()], which raises [Exception] ('"..." does not look like a valid URI, I
+    cannot serialize this as N3/Turtle') when the IRI holds one of the characters of
+    [rdflib.term._invalid_uri_chars].  None of these characters is a name character, so an IRI
+    holding one is abbreviated only when a bound namespace holds it too: the model assumes the bound
+    namespaces (the caller's dictionary, the shapes namespace, rdflib's defaults) do not -- the
+    harness generates no other.  The predicates of the graph are the fixed SHACL / RDF vocabulary.
+    A shape-map label kept in its corners as the object of [sh:targetClass] (finding C04-F2) is
+    the case in point. *)
+Definition rdflib_invalid_uri_chars : str := Str "<>"" {}|\^`".
+
+Definition iri_printable (i : str) : bool :=
+  forallb (fun ch => negb (existsb (Ascii.eqb ch) i)) rdflib_invalid_uri_chars.
+
+Definition term_printable (t : term) : bool :=
+  match t with TIri i => iri_printable i | _ => true end.
+
+Definition triple_printable (t : rdf_triple) : bool :=
+  term_printable (tr_subj t) && term_printable (tr_obj t).
+
+Inductive oerr :=
+| OGraph (e : gerr)     (* raised while the graph is built ([_add_shapes]) *)
+| OException.           (* raised by rdflib's writer in [_produce_output] *)
+
+Definition produce_output (g : list rdf_triple) : list rdf_triple + oerr :=
+  if forallb triple_printable g then inl g else inr OException.
+
+(** [serialize_shapes] *)
+Definition shacl_output_gen (z : dcfg) (ns : nsdict) (tau : str) (l : list shape) : list rdf_triple + oerr :=
+  match shacl_graph_gen z ns tau l with
+  | inl g => produce_output g
+  | inr e => inr (OGraph e)
+  end.
+
+Definition shacl_output (ns : nsdict) (tau : str) (l : list shape) : list rdf_triple + oerr :=
+  shacl_output_gen no_patterns ns tau l.
